@@ -166,9 +166,15 @@ def check(ctx):
     for bi, si, p, rv, line, mac in po.assigns():
         if bi in blocks and rv[0] == "bin" and rv[1].startswith("Add"):
             a, b2 = operand_term(po, rv[2]), operand_term(po, rv[3])
-            names = [po.local_name(x[1]) for x in (a, b2) if x[0] in ("path", "local")]
-            if "offset" in names:
-                other = b2 if (a[0] in ("path", "local") and po.local_name(a[1]) == "offset") else a
+            # the running offset: the function's return value accumulator - the local that is returned (moved into _0);
+            # identified by that role, not by its name
+            accs = set()
+            for bi3, si3, p3, rv3, line3, mac3 in po.assigns():
+                if p3 == [0] and rv3[0] == "use" and rv3[1][0] in ("c", "m") and len(rv3[1][1]) == 1:
+                    accs.add(rv3[1][1][0])
+            locs = [x[1] if x[0] in ("path", "local") else None for x in (a, b2)]
+            if any(l in accs for l in locs if l is not None):
+                other = b2 if (locs[0] in accs) else a
                 adds.append((bi, other, line))
     bad = []
     n_term = 0
